@@ -541,6 +541,10 @@ func (s *gridScreen) deleteChars(x int, y int, n int, cr ChangeReason) {
 		n = s.size.X - x
 	}
 
+	// A wide character cut by either end of the deleted range cannot stay.
+	start := s.splitWideAt(y, x)
+	s.splitWideAt(y, x+n)
+
 	line := s.chars[y]
 	copy(line[x:], line[x+n:])
 	textLine := s.cellText[y]
@@ -560,7 +564,31 @@ func (s *gridScreen) deleteChars(x int, y int, n int, cr ChangeReason) {
 	copy(styleLine[x:], styleLine[x+n:])
 	s.rawWriteStyles(y, s.size.X-n, s.size.X)
 
-	s.frontend.RegionChanged(Region{Y: y, Y2: y + 1, X: x, X2: s.size.X}, cr)
+	s.frontend.RegionChanged(Region{Y: y, Y2: y + 1, X: start, X2: s.size.X}, cr)
+}
+
+// splitWideAt makes x a character boundary of row y: a wide character that
+// covers both x-1 and x is replaced by blanks that keep its style. It returns
+// the first cell it changed (x if none).
+func (s *gridScreen) splitWideAt(y int, x int) int {
+	if x <= 0 || x >= len(s.cellCont[y]) || !s.cellCont[y][x] {
+		return x
+	}
+	base := x - 1
+	for base > 0 && s.cellCont[y][base] {
+		base--
+	}
+	end := x
+	for end < len(s.cellCont[y]) && s.cellCont[y][end] {
+		end++
+	}
+	for i := base; i < end; i++ {
+		s.chars[y][i] = ' '
+		s.cellText[y][i] = " "
+		s.cellWidth[y][i] = 1
+		s.cellCont[y][i] = false
+	}
+	return base
 }
 
 // func (s *gridScreen) advanceLine(auto bool) {
